@@ -222,6 +222,8 @@ func runC12(r *vf.Run) {
 	})
 	c12GroupCounts(r)
 	c12Whitespace(r)
+	c12LargeTexts(r)
+	c12SameTextConcurrently(r)
 	racePass(r)
 	r.Floor("every DSN option set used", r.Covered("dsn_option_sets") == len(dsnOptionSets))
 	r.Floor("grouped query without matching group", r.GetCount("grouped_queries_without_groups") > 0)
